@@ -97,6 +97,17 @@ namespace logmessage::preprocessor {
         return output;
     }
 
+    std::string MacroRecursion::formatMessage() const {
+        auto output = m_location.format();
+        auto const message = "Macro expansion nested too deeply (recursive macro?) while expanding '"sv;
+
+        output.reserve(output.length() + message.length() + macroName.length() + 2);
+        output.append(message);
+        output.append(macroName);
+        output.append("'."sv);
+        return output;
+    }
+
     std::string IncludeFailed::formatMessage() const {
         auto output = m_location.format();
 
